@@ -1,4 +1,242 @@
-import Rngs.Model.Xoshiro
+/-
+  C12 — JitterRng is a deterministic function of the values its timer returns, namely the
+  Jitterentropy 2.1.0 collection procedure documented in the crate, run on the same readings.
+
+  * `Rngs.Model.Jitter` is the executable transliteration of rand_jitter/src/lib.rs (monadic,
+    with a fuel-bounded retry loop), tied to the Rust crate by differential testing.
+  * `Rngs.Spec.JitterProc` is the documented procedure as a pure list program: readings →
+    time stamps → 32-bit deltas → first/second differences → stuck flags → shortest prefix with
+    `rounds` accepted measurements → LFSR fold (+ rotate 7 on accepted) → stir; the number of
+    readings consumed is computed arithmetically.
+  * Here: the two agree, for every state, every reading list (monotonic or not) and every
+    sequence of operations — results, new state, and remaining readings (hence the number of
+    readings consumed).  `none`/`blocked` on one side iff on the other.
+
+  `abs j = ⟨j.data, j.rounds, j.halfUsed⟩` forgets `memPrevIndex`, which only selects the scratch
+  byte the memory-access noise source touches; every theorem below therefore also says that
+  no result depends on it (`memPrevIndex_irrelevant`).
+-/
+import Rngs.Lib.JitterRefine
 namespace Rngs.C12
-theorem placeholder : True := trivial
+open Rngs Rngs.Spec Rngs.JitterRefine
+open JitterProc (Op Res Halt)
+
+/-! ## one collection -/
+
+/-- `gen_entropy`, from *every* model state and on *every* reading list, is one collection of
+    the documented procedure on `(pool, rounds, readings)`: the same `some`/`none`, the same
+    returned value, the same new pool (= the value), `rounds` and the pending flag unchanged,
+    the same remaining readings.  (The model's fuel `remaining readings + 1` never runs out
+    before the readings do: `JitterRefine.collect_eq`.) -/
+theorem genEntropy_eq_spec (j : Jitter.Rng) (rs : List U64) :
+    ((Jitter.genEntropy j).run rs).map (fun r => (r.1.1, abs r.1.2, r.2)) =
+    (JitterProc.collect j.data j.rounds rs).map fun r =>
+      (r.1, (⟨r.1, j.rounds, j.halfUsed⟩ : JitterProc.St), r.2) :=
+  genEntropy_eq j rs
+
+/-- The timer script is too short for `gen_entropy` exactly when the readings do not contain a
+    priming measurement followed by `rounds` measurements that pass the stuck test. -/
+theorem genEntropy_none_iff (j : Jitter.Rng) (rs : List U64) :
+    (Jitter.genEntropy j).run rs = none ↔
+      (JitterProc.measurements rs = [] ∨ accepted (JitterProc.measurements rs).tail < j.rounds) := by
+  have h := genEntropy_eq j rs
+  have hn : (Jitter.genEntropy j).run rs = none ↔ JitterProc.collect j.data j.rounds rs = none := by
+    show Jitter.genEntropy j rs = none ↔ _
+    constructor
+    · intro h0; rw [h0] at h; simpa using h.symm
+    · intro h0; rw [h0] at h; simpa using h
+  rw [hn]
+  unfold JitterProc.collect
+  rcases JitterProc.measurements rs with _ | ⟨prime, ms⟩
+  · simp
+  · simp [untilAccepted_none]
+
+/-- A successful `gen_entropy`, spelled out: the value is the stirred fold of the pool over the
+    priming measurement and the shortest run of further measurements containing `rounds`
+    accepted ones; exactly `1 + 3·(1 + that many)` readings are consumed. -/
+theorem genEntropy_some (j : Jitter.Rng) (rs : List U64) (v : U64) (j' : Jitter.Rng) (rs' : List U64)
+    (h : (Jitter.genEntropy j).run rs = some ((v, j'), rs')) :
+    ∃ prime ms taken,
+      JitterProc.measurements rs = prime :: ms ∧
+      JitterProc.untilAccepted j.rounds ms = some taken ∧
+      v = JitterProc.stir ((prime :: taken).foldl JitterProc.absorb j.data) ∧
+      j'.data = v ∧ j'.rounds = j.rounds ∧ j'.halfUsed = j.halfUsed ∧
+      rs' = rs.drop (1 + 3 * (1 + taken.length)) ∧
+      rs.length = rs'.length + (1 + 3 * (1 + taken.length)) := by
+  have he := genEntropy_eq j rs
+  rw [show Jitter.genEntropy j rs = some ((v, j'), rs') from h] at he
+  rcases hc : JitterProc.collect j.data j.rounds rs with _ | ⟨v0, r0⟩
+  · rw [hc] at he; simp at he
+  · rw [hc] at he
+    simp only [Option.map_some, Option.some.injEq, Prod.mk.injEq, abs, JitterProc.St.mk.injEq] at he
+    obtain ⟨hv, ⟨hd, hr, hh⟩, hrs⟩ := he
+    subst hv hrs
+    obtain ⟨prime, ms, taken, h1, h2, h3, h4, h5⟩ := collect_some _ _ _ _ _ hc
+    exact ⟨prime, ms, taken, h1, h2, h3, hd, hr, hh, h4, h5⟩
+
+/-! ## what "until `rounds` measurements are accepted" means -/
+
+/-- `untilAccepted n ms = some l`: `l` is a prefix of `ms`, contains exactly `n` accepted
+    measurements, is `n + (number of stuck ones)` long, and no shorter prefix contains `n`
+    accepted ones — so `l.length` is the least `m` such that the first `m` measurements after
+    the priming one contain `rounds` non-stuck ones. -/
+theorem untilAccepted_least (n : Nat) (ms l : List JitterProc.Meas)
+    (h : JitterProc.untilAccepted n ms = some l) :
+    l = ms.take l.length ∧ l.length ≤ ms.length ∧ accepted l = n ∧ l.length = n + skipped l ∧
+      ∀ k, k < l.length → accepted (l.take k) < n :=
+  untilAccepted_some ms n l h
+
+/-- … and there is no such prefix exactly when `ms` contains fewer than `n` accepted ones. -/
+theorem untilAccepted_none_iff (n : Nat) (ms : List JitterProc.Meas) :
+    JitterProc.untilAccepted n ms = none ↔ accepted ms < n :=
+  untilAccepted_none ms n
+
+/-! ## the LFSR and the stir step of the code are the documented ones -/
+
+/-- the crate's `fn lfsr` is the documented bit-by-bit fold: LSB first; the bit, then taps
+    63, 60, 55, 30, 27, 22 xored into bit 0 one after another; rotate left by one -/
+theorem lfsr_eq_spec (data time : U64) : Jitter.lfsr data time = JitterProc.lfsr data time :=
+  lfsr_eq data time
+
+/-- the branch-free `stir_pool` is the documented "if bit i is set, xor the constant" loop -/
+theorem stir_eq_spec (data : U64) : Jitter.stir data = JitterProc.stir data :=
+  stir_eq data
+
+/-! ## the operations -/
+
+/-- `next_u64` -/
+theorem nextU64_eq_spec (j : Jitter.Rng) (rs : List U64) :
+    obs ((Jitter.nextU64 j).run rs) = JitterProc.nextU64 (abs j) rs :=
+  nextU64_eq j rs
+
+/-- `next_u32`: low half of a fresh collection, or — if a half is pending — the high half of
+    the pool, without reading the timer -/
+theorem nextU32_eq_spec (j : Jitter.Rng) (rs : List U64) :
+    obs ((Jitter.nextU32 j).run rs) = JitterProc.nextU32 (abs j) rs :=
+  nextU32_eq j rs
+
+/-- `fill_bytes` of an `n`-byte buffer, every `n` -/
+theorem fill_eq_spec (n : Nat) (j : Jitter.Rng) (rs : List U64) :
+    obs ((Jitter.fill n j).run rs) = JitterProc.fillBytes n (abs j) rs :=
+  fill_eq n j rs
+
+/-- `timer_stats(b)` -/
+theorem timerStats_eq_spec (j : Jitter.Rng) (b : Bool) (rs : List U64) :
+    obs ((Jitter.timerStats j b).run rs) = JitterProc.timerStats b (abs j) rs :=
+  timerStats_eq j b rs
+
+/-- `set_rounds(r)` (reads no timer; asserts `r > 0`) -/
+theorem setRounds_eq_spec (j : Jitter.Rng) (r : Nat) :
+    (Jitter.setRounds j r).map abs = JitterProc.setRounds r (abs j) :=
+  setRounds_eq j r
+
+/-- two `next_u32` in a row: the second returns the high half of the value whose low half the
+    first returned, and reads no timer -/
+theorem nextU32_twice (j : Jitter.Rng) (rs : List U64) (lo : U32) (j' : Jitter.Rng) (rs' : List U64)
+    (hp : j.halfUsed = false) (h : (Jitter.nextU32 j).run rs = some ((lo, j'), rs')) :
+    ∃ v rest0, JitterProc.collect j.data j.rounds rs = some (v, rest0) ∧ rest0 = rs' ∧
+      lo = v.setWidth 32 ∧
+      (Jitter.nextU32 j').run rs' = some (((v >>> 32).setWidth 32, { j' with halfUsed := false }), rs') := by
+  have he := nextU32_eq j rs
+  rw [show Jitter.nextU32 j rs = some ((lo, j'), rs') from h] at he
+  unfold JitterProc.nextU32 at he
+  simp only [abs, hp, Bool.false_eq_true, if_false] at he
+  rcases hc : JitterProc.collect j.data j.rounds rs with _ | ⟨v, r0⟩
+  · rw [hc] at he; simp [obs] at he
+  · rw [hc] at he
+    simp only [obs, Option.map_some, Option.some.injEq, Prod.mk.injEq, abs,
+      JitterProc.St.mk.injEq] at he
+    obtain ⟨hlo, ⟨hd, _, hh⟩, hrs⟩ := he
+    refine ⟨v, r0, rfl, hrs.symm, hlo, ?_⟩
+    show Jitter.nextU32 j' rs' = _
+    rw [nextU32_unfold, hh, hd]
+    rfl
+
+/-! ## every sequence of operations -/
+
+/-- one operation, from every state, on every reading list -/
+theorem step_eq_spec (op : Op) (j : Jitter.Rng) (rs : List U64) :
+    absOut (stepModel op j rs) = JitterProc.stepSpec op (abs j) rs :=
+  step_eq op j rs
+
+/-- **C12.**  For every sequence of `next_u32`, `next_u64`, `fill_bytes n`, `timer_stats b`,
+    `set_rounds r` calls, every starting state and every list of timer readings: the model
+    produces the results of the documented procedure, ends in the same observable state, and
+    leaves the same readings unread (so it has consumed the same number); it blocks on an
+    exhausted timer script, or panics in `set_rounds(0)`, exactly when the procedure does. -/
+theorem run_eq_spec (ops : List Op) (j : Jitter.Rng) (rs : List U64) :
+    absOut (runModel ops j rs) = JitterProc.runSpec ops (abs j) rs :=
+  run_eq ops j rs
+
+/-- the scratch-memory index never influences a result, the pool, or the number of readings -/
+theorem memPrevIndex_irrelevant (ops : List Op) (j₁ j₂ : Jitter.Rng) (rs : List U64)
+    (h : abs j₁ = abs j₂) : absOut (runModel ops j₁ rs) = absOut (runModel ops j₂ rs) := by
+  rw [run_eq, run_eq, h]
+
+/-- the readings left over by a run are a suffix of the readings supplied: "the number of
+    readings consumed" is `rs.length - rs'.length`, and the consumed ones are the first ones -/
+theorem run_consumes_prefix (ops : List Op) (j : Jitter.Rng) (rs : List U64) (res : List Res)
+    (j' : Jitter.Rng) (rs' : List U64) (h : runModel ops j rs = .ok (res, j', rs')) :
+    ∃ used, rs = used ++ rs' := by
+  have he := run_eq ops j rs
+  rw [h] at he
+  obtain ⟨used, hu⟩ := runSpec_suffix (res := res) (st' := abs j') (rs' := rs') ops he.symm
+  exact ⟨used, hu.symm⟩
+
+/-! ## number of timer readings per 64-bit result -/
+
+/-- A successful `next_u64` has read the timer exactly `1 + 3·(1 + rounds + s)` times, where `s`
+    is the number of stuck measurements it skipped: one priming reading, then three readings for
+    the priming measurement, for each of the `rounds` accepted measurements, and for each
+    skipped one. -/
+theorem nextU64_readings (j : Jitter.Rng) (rs : List U64) (v : U64) (j' : Jitter.Rng) (rs' : List U64)
+    (h : (Jitter.nextU64 j).run rs = some ((v, j'), rs')) :
+    ∃ prime ms taken,
+      JitterProc.measurements rs = prime :: ms ∧
+      JitterProc.untilAccepted j.rounds ms = some taken ∧
+      accepted taken = j.rounds ∧
+      rs' = rs.drop (1 + 3 * (1 + j.rounds + skipped taken)) ∧
+      rs.length = rs'.length + (1 + 3 * (1 + j.rounds + skipped taken)) := by
+  obtain ⟨prime, ms, taken, h1, h2, _, _, _, _, h4, h5⟩ :=
+    genEntropy_some { j with halfUsed := false } rs v j' rs' h
+  obtain ⟨_, _, h6, h7, _⟩ := untilAccepted_some ms _ taken h2
+  dsimp only at h2 h6 h7
+  refine ⟨prime, ms, taken, h1, h2, h6, ?_, ?_⟩
+  · rw [h4, h7, Nat.add_assoc]
+  · rw [h5, h7, Nat.add_assoc]
+
+/-- … in particular at least `1 + 3·(1 + rounds)`: the rounds loop cannot be cut short. -/
+theorem nextU64_readings_ge (j : Jitter.Rng) (rs : List U64) (v : U64) (j' : Jitter.Rng) (rs' : List U64)
+    (h : (Jitter.nextU64 j).run rs = some ((v, j'), rs')) :
+    rs'.length + (1 + 3 * (1 + j.rounds)) ≤ rs.length := by
+  obtain ⟨_, _, taken, _, _, _, _, h5⟩ := nextU64_readings j rs v j' rs' h
+  omega
+
+/-! ## non-vacuity -/
+
+/-- The specification, evaluated: `rounds = 2`, readings with deltas 5, 12, 12 (stuck: first
+    difference zero), 31: 13 readings are consumed, 5 are left. -/
+example :
+    JitterProc.collect 0 2 [100, 0, 105, 0, 0, 117, 0, 0, 129, 0, 0, 160, 0, 0, 193, 0, 7, 8]
+      = some (0x97a3828701143341#64, [0, 193, 0, 7, 8]) := by
+  set_option maxRecDepth 100000 in decide +kernel
+
+/-- … and the model on the same readings (follows from the theorems; evaluated independently) -/
+example :
+    ((Jitter.genEntropy { Jitter.newWithTimer with rounds := 2 }).run
+        [100, 0, 105, 0, 0, 117, 0, 0, 129, 0, 0, 160, 0, 0, 193, 0, 7, 8]).map
+      (fun r => (r.1.1, r.2)) = some (0x97a3828701143341#64, [0, 193, 0, 7, 8]) := by
+  set_option maxRecDepth 100000 in decide +kernel
+
+/-- a whole operation sequence on the specification: `set_rounds(1)`; `next_u32` (7 readings);
+    `next_u32` (the pending high half, no reading); `timer_stats(false)` (2 readings) -/
+example :
+    (JitterProc.runSpec [.setRounds 1, .nextU32, .nextU32, .timerStats false]
+        ⟨0, 64, false⟩ [1, 0, 4, 0, 0, 9, 0, 50, 57, 99]).toOption.map (fun r => (r.1, r.2.2))
+      = some ([.unit, .u32 0x20310f3a#32, .u32 0x8e4823bf#32, .stats 7#64], [99]) := by
+  set_option maxRecDepth 100000 in decide +kernel
+
+example : JitterProc.runSpec [.setRounds 0] ⟨0, 64, false⟩ [1] = .error .panicked := rfl
+example : JitterProc.runSpec [.nextU64] ⟨0, 1, false⟩ [1, 2, 3, 4, 5, 6] = .error .blocked := rfl
+
 end Rngs.C12
